@@ -71,6 +71,11 @@ CLAIMED = {
         text="For any atom count N, any k<=N distinct in-range indices in any order and every per-atom array (int, float, (n,3), bool; also an array only the re-inserted atoms carry): after deletion and reinsertion every array has its original length, dtype, row shape and, at every row, its original value. Molecule search (n=4, all 64 graphs x 4 size filters x default given/absent): two atoms share a non-negative label iff they are in the same admitted component, every other atom keeps the supplied default (or -1), for any negative default array, without raising.",
         note="ASE __delitem__/__getitem__/get_masses and numpy mask/index contracts are trusted (pyvc/models/arrays.py, atoms_heap.py); index distinctness is a precondition; search_molecules bounded to 4 atoms in the deductive part (random geometries up to 9 atoms natively).",
         design="§7 C19"),
+    "C11": dict(
+        technique="contract-based deductive verification: the real DisplacementMove and CompositeDisplacementMove code executed on label and position arrays of symbolic length (array terms with numpy contracts), opaque operation and geometric check, attempt loop cut by its invariant; postconditions at a generic atom row; native enumeration of label arrays as stand-in",
+        text="For every atom count and label array (negative, repeated, unsorted) and any operation result: on success exactly the rows whose label equals the selected one move, all by the same vector, every other row is unchanged; a randomly selected label is non-negative and present (one unweighted draw among the filtered unique labels), a pre-selected one is honoured without a draw; on failure (no eligible particle, or every attempt vetoed) False is returned and no position changes; selections are cleared; the attempt loop restores the pre-trial positions before every new attempt. Composite of 3 sub-moves (also with a stale pre-selection): recorded labels pairwise distinct, each recorded particle displaced exactly once, others unmoved, count and result reported.",
+        note="'no constraint interferes' (set_positions stores its argument); numpy/ASE contracts trusted; the cardinality clause min(n, eligible) only in the bounded native stand-in.",
+        design="§7 C11"),
 }
 PENDING_REASON = "check not yet registered in this revision (under construction; see DESIGN.md §0/§7 for the plan)"
 
